@@ -17,6 +17,9 @@ What is proved here (model M4, where every `expect("inconsistent state")`, `unre
   to stored entries (`channel_ops_do_not_panic`, `listener_enumeration_does_not_panic`);
 * requests naming unknown cookies / serials are answered or ignored without touching other state
   (`unknown_*`).
+* the three `debug_assert!`s of `ConnectionState::remove_call` (`call_function_reply`, `abort_call`, the deferred
+  `remove_function_call` items) hold in every turn of `Broker::run`, by the cross-reference invariant of the call
+  tables proved for C02 (`remove_call_asserts_hold`; reachable states with fewer than 2³² pending calls);
 Partial: the remaining `expect("inconsistent state")` sites are cross-reference lookups between the
 broker's maps; their unreachability is the registry / call / subscription consistency invariant, which
 is not proved. It is covered by the correspondence runs of the "abuse" profile (the model reports the
@@ -25,6 +28,7 @@ is still answered at the end of each scenario).
 -/
 import Aldrin.Lemmas.Broker.Gauge
 import Aldrin.Lemmas.Broker.Events
+import Aldrin.Lemmas.Broker.CallAsserts
 
 namespace Aldrin.Broker
 
@@ -77,6 +81,23 @@ theorem foreign_listener_untouched {s : St} {id c} {f : Listener → Listener} {
     (hl : AL.find? c s.b.listeners = some l) (hne : l.conn ≠ id) :
     updListener s id c f = .ok (s, true) := by
   unfold updListener; simp [hl, hne, okH]
+
+/-- **The three `debug_assert!`s of `ConnectionState::remove_call` hold in every turn of `Broker::run`** (every
+reachable state with fewer than 2³² pending calls, every event, every step of the work loop): in `call_function_reply`
+(the handler runs on the state between two events), in `abort_call` and for the deferred `remove_function_call` items
+(both run on states inside the work loop). -/
+theorem remove_call_asserts_hold :
+    (∀ {b : Broker} {w : Work}, Reachable b w → ∀ id serial r,
+        callFunctionReply ⟨b, w, []⟩ id serial r ≠ .error (.debugAssert "remove_call")) ∧
+    (∀ {s : St}, InTurn s → ∀ bs cid rest,
+        abortCall (s.setWAbortCalls rest) bs cid ≠ .error (.debugAssert "abort_call: remove_call")) ∧
+    (∀ {s : St}, InTurn s → ∀ serial cid result rest conn, s.w.removeCalls = (serial, cid, result) :: rest →
+        AL.find? cid s.b.conns = some conn → AL.find? serial conn.calls ≠ none) :=
+  ⟨fun hr id serial r => reply_remove_call_assert_holds hr.idle.x id serial r,
+   fun hs bs cid rest => abort_remove_call_assert_holds hs.xref bs cid rest,
+   fun hs serial cid result rest conn hq hc => loop_remove_call_assert_holds hs.xref hq hc⟩
+
+
 
 /-! non-vacuity: abuse by connection 1 (wrong direction, then it is gone); connection 0 is still served -/
 example : (match run {} {} [.newConn 0 20, .newConn 1 14, .msg 1 (.other 31), .msg 1 (.sync 5), .msg 0 (.sync 6)] with
